@@ -5,13 +5,17 @@ from vlib import Case, Stream
 import c07gs as gs
 import c07notify as nt
 import c07cfg as cf
+import c11 as rd      # the reduce generators / model driver (stream reduce-history)
+import os
+from vlib import BUILD, model_cmd as _model_cmd
 
 ID = "C07"
-LEAN_MODULES = ['HgVerif.Props.C07', 'HgVerif.Model.Engine', 'HgVerif.Model.Extracted'] + gs.LEAN_MODULES + list(nt.LEAN_MODULES) + list(cf.LEAN_MODULES)
+LEAN_MODULES = ['HgVerif.Props.C07', 'HgVerif.Model.Engine', 'HgVerif.Model.Extracted'] + gs.LEAN_MODULES + list(nt.LEAN_MODULES) + list(cf.LEAN_MODULES) + ['HgVerif.Model.ReduceKeyed', 'HgVerif.Model.Slots']
 THEOREMS = ['HgVerif.Runs.interleave_independent', 'HgVerif.Runs.intern_history_free', 'HgVerif.Runs.run_is_function'] + gs.THEOREMS + list(nt.THEOREMS) + list(cf.THEOREMS)
-CXX_TARGETS = ['hgv_engine'] + gs.CXX_TARGETS + list(nt.CXX_TARGETS) + list(cf.CXX_TARGETS)
+CXX_TARGETS = ['hgv_engine'] + gs.CXX_TARGETS + list(nt.CXX_TARGETS) + list(cf.CXX_TARGETS) + ['hgv_reduce']
+REDUCE = os.path.join(BUILD, "hgv_reduce")
 USES_EXTRACT = True
-RULE = "programs from every engine family, each run (a) once, (b) 1-3 more times from the SAME executor builder, (c) on 2-8 threads concurrently (each thread wiring and running it), and (d) a quarter of them again at the end of the process after all other builds and runs; every trace must be byte-identical to the first and to the model's; non-trivial = >=2 cycles with user code; distinct by program text. " + gs.RULE + " " + nt.RULE + " " + cf.RULE
+RULE = "programs from every engine family, each run (a) once, (b) 1-3 more times from the SAME executor builder, (c) on 2-8 threads concurrently (each thread wiring and running it), and (d) a quarter of them again at the end of the process after all other builds and runs; every trace must be byte-identical to the first and to the model's; non-trivial = >=2 cycles with user code; distinct by program text. Stream reduce-history: 2-3 reduce graphs of DIFFERING result kinds (scalar TS<int>: direct publication; set TSS<int>: keyed publication; the first and the last of a case always differ) built and run one after the other in ONE process of hgv_reduce; the LAST one's output lines must be byte-identical to the same graph run alone in a FRESH process, and to the C11 model driver. " + gs.RULE + " " + nt.RULE + " " + cf.RULE
 TRUSTED = ['no ThreadSanitizer build: data races that do not change a trace are invisible to this check'] + list(gs.TRUSTED) + list(nt.TRUSTED) + list(cf.TRUSTED)
 ASSUMPTIONS = ["the harness nodes' own tables are read-only during runs; per-run logs and fault counters are thread-local"] + list(gs.ASSUMPTIONS) + list(nt.ASSUMPTIONS) + list(cf.ASSUMPTIONS)
 TECHNIQUE = 'Lean 4 proof (interleaving independence of state-owning executors, history-free intern tables) + differential runs: repeat, builder reuse, process history, concurrent threads, all compared with one model trace'
@@ -59,8 +63,20 @@ def streams(rng, tier, seed):
         for j, q in enumerate(progs_i):
             L += (["reset"] if j else []) + q.lines(0)[1:]
         hist.append(Case(L))
+    # history of REDUCE graphs of differing result kinds in one process (a reduce node picks its publication strategy
+    # from its result schema at build time: nothing an earlier reduce node left behind in the process may change it).
+    # The first and the last graph of a case differ in kind, so a case replayed alone still has the history in it.
+    nr = 60 if tier == "quick" else 1500
+    rhist = []
+    for i in range(nr):
+        order = rng.choice(["sk", "ks", "sk", "ks", "ssk", "kks", "skk", "kss"])
+        L = ["case %d" % (30000 + i)]
+        for ch in order:
+            L += rd.gen_keyed_segment(rng, tier) if ch == "k" else rd.gen_scalar_segment(rng, tier)
+        rhist.append(Case(L, {"order": order}))
     return [Stream("engine-repro", [ec.ENGINE], ec.model_cmd("Engine"), cases + again, timeout=900),
-            Stream("engine-history", [ec.ENGINE], ec.model_cmd("Engine"), hist, timeout=900)] + gs.streams(rng, tier, seed) + nt.streams(rng, tier, seed) + cf.streams(rng, tier, seed)
+            Stream("engine-history", [ec.ENGINE], ec.model_cmd("Engine"), hist, timeout=900),
+            Stream("reduce-history", [REDUCE], _model_cmd("C11"), rhist, timeout=900)] + gs.streams(rng, tier, seed) + nt.streams(rng, tier, seed) + cf.streams(rng, tier, seed)
 
 
 def _option_twin(rng, p):
@@ -115,7 +131,44 @@ def _monitor_history(case, out):
     return []
 
 
+def _reduce_segments(lines):
+    """indices of the `cfg` lines of a reduce-history case"""
+    return [i for i, l in enumerate(lines) if l.startswith("cfg ")]
+
+
+def _monitor_reduce_history(case, out):
+    """the last reduce graph of the case, run alone in a fresh process, must give what it gave after its predecessors"""
+    import subprocess
+    cfgs = _reduce_segments(case.lines)
+    if len(cfgs) < 2:
+        return []
+    start = cfgs[-1]
+    last = case.lines[start:]
+    try:
+        r = subprocess.run([REDUCE], input="\n".join([case.lines[0]] + last) + "\n", capture_output=True, text=True, timeout=120)
+    except Exception:
+        return []
+    fresh = [x for x in r.stdout.split("\n") if x != ""]
+    if r.returncode != 0 or len(fresh) != len(last) + 1:
+        return []
+    for j, (l, f) in enumerate(zip(last, fresh[1:])):
+        here = out[start + j] if start + j < len(out) else ""
+        if here != f:
+            return ["[repro] %r (cycle line %d of the last reduce graph, %r) gives a different trace after the reduce graphs built "
+                    "and run before it in this process than alone in a fresh process: here %s ... fresh %s"
+                    % (l, j, last[0], here[:90], f[:90])]
+    return []
+
+
+def alarm_filter(stream, case, impl_out, model_out):
+    if stream == "reduce-history":
+        return rd.alarm_filter("reduce", case, impl_out, model_out)
+    return True, ["outputs differ"]
+
+
 def monitor(stream, case, out):
+    if stream == "reduce-history":
+        return _monitor_reduce_history(case, out)
     if stream.startswith("gstate-"):
         return gs.monitor(stream, case, out)
     if stream.startswith("notify-"):
@@ -149,6 +202,9 @@ def monitor(stream, case, out):
 
 
 def features(stream, case, out):
+    if stream == "reduce-history":
+        kinds = ["set" if l.split()[1].endswith(":s") else "scalar" for l in case.lines if l.startswith("cfg ")]
+        return ["reduce-history:" + ">".join(kinds)]
     if stream.startswith("gstate-"):
         return gs.features(stream, case, out)
     if stream.startswith("notify-"):
@@ -171,6 +227,9 @@ def features(stream, case, out):
 
 
 def nontrivial(stream, case, out):
+    if stream == "reduce-history":
+        kinds = {l.split()[1].endswith(":s") for l in case.lines if l.startswith("cfg ")}
+        return len(kinds) == 2 and sum(1 for l in case.lines if l == "run") >= 2
     if stream.startswith("gstate-"):
         return gs.nontrivial(stream, case, out)
     if stream.startswith("notify-"):
@@ -183,6 +242,9 @@ def nontrivial(stream, case, out):
 
 
 def valid_case(stream, case, impl_out, model_out):
+    if stream == "reduce-history":
+        cfgs = [l for l in case.lines if l.startswith("cfg ")]
+        return len(cfgs) >= 2 and sum(1 for l in case.lines if l == "run") >= 2 and case.lines[-1] == "run"
     if stream.startswith("gsconfig-"):
         return cf.valid_case(stream, case, impl_out, model_out)
     if stream.startswith("notify-"):
